@@ -258,4 +258,25 @@ theorem serve_and_shutdown_refused_elsewhere (s : St) (n : Nat) :
     (s.phase ≠ .stopped → step s (.serve n) = none) ∧ (s.phase ≠ .started → step s .shutdownCas = none) := by
   constructor <;> intro h <;> simp [step, h]
 
+/-! ## nothing foreign is called with the service mutex held
+
+`Generated.heldCalls` (rewritten from /repo on every run) lists every call that leaves package res -
+a method of another package's value or of an interface (the connection, a subscription, the logger),
+a function value (user callbacks), the builtin `close` - made while the service mutex is held, or
+held on some paths.  The bounded-time clause of the property rests on this table being what it is:
+a worker waits on the condition variable (which releases the mutex) and signs off from the wait
+group; nothing else.  In particular the connection is closed, messages are published, loggers and
+user callbacks are called, and channels are closed *outside* the mutex: a `Close` that waits for a
+delivery goroutine which in turn waits for the mutex cannot deadlock `Shutdown`. -/
+
+def heldCallOk (c : String × String × String) : Bool :=
+  (c.1 == "Service.startWorker" && c.2.1 == "s.workcond.Wait" && c.2.2 == "L") ||
+  (c.1 == "Service.startWorker" && c.2.1 == "s.wg.Done")
+
+theorem nothing_foreign_under_the_mutex :
+    Generated.heldCalls.all heldCallOk = true ∧
+    -- the worker does wait with the mutex held (`Wait` must be called that way)
+    Generated.heldCalls.contains ("Service.startWorker", "s.workcond.Wait", "L") = true := by
+  decide +kernel
+
 end GoRes.Props.C03
